@@ -21,6 +21,7 @@ const (
 	AFTreeIndex    = slhdsa.AFTreeIndex
 )
 
+// Set returns the parameter set under its (unexported) type, for the seam methods of the shim.
 func Set(name string) *P                       { return slhdsa.VSet(name) }
 func ToInt(x []byte, n uint32) uint64          { return slhdsa.VToInt(x, n) }
 func ToByte(x, n uint32) []byte                { return slhdsa.VToByte(x, n) }
@@ -31,3 +32,45 @@ func AddrTreeIndex(a *[32]byte) uint32         { return slhdsa.VAddrTreeIndex(a)
 func AddrCompress(a *[32]byte) []byte          { return slhdsa.VAddrCompress(a) }
 func AddrCopy(a *[32]byte) [32]byte            { return slhdsa.VAddrCopy(a) }
 func NewAddress() [32]byte                     { return slhdsa.VNewAddress() }
+
+// API is the EXPORTED method set of a parameter set (slhdsa.SLH_DSA_*) as far as the harness uses it. The parameter
+// type itself is unexported; the interface lets the scheme level run without naming it, i.e. also when the export
+// shim is replaced by its stub.
+type API interface {
+	KeyGen() (*slhdsa.SecretKey, *slhdsa.PublicKey)
+	PublicKeyLength() int
+	SecretKeyLength() int
+	DecodePublicKey(pkEnc []byte) (*slhdsa.PublicKey, error)
+	DecodeSecretKey(skEnc []byte) (*slhdsa.SecretKey, error)
+}
+
+// APISet returns the parameter set with the given FIPS 205 name through exported names only (nil if unknown).
+func APISet(name string) API {
+	switch name {
+	case "SLH-DSA-SHA2-128s":
+		return slhdsa.SLH_DSA_SHA2_128s
+	case "SLH-DSA-SHAKE-128s":
+		return slhdsa.SLH_DSA_SHAKE_128s
+	case "SLH-DSA-SHA2-128f":
+		return slhdsa.SLH_DSA_SHA2_128f
+	case "SLH-DSA-SHAKE-128f":
+		return slhdsa.SLH_DSA_SHAKE_128f
+	case "SLH-DSA-SHA2-192s":
+		return slhdsa.SLH_DSA_SHA2_192s
+	case "SLH-DSA-SHAKE-192s":
+		return slhdsa.SLH_DSA_SHAKE_192s
+	case "SLH-DSA-SHA2-192f":
+		return slhdsa.SLH_DSA_SHA2_192f
+	case "SLH-DSA-SHAKE-192f":
+		return slhdsa.SLH_DSA_SHAKE_192f
+	case "SLH-DSA-SHA2-256s":
+		return slhdsa.SLH_DSA_SHA2_256s
+	case "SLH-DSA-SHAKE-256s":
+		return slhdsa.SLH_DSA_SHAKE_256s
+	case "SLH-DSA-SHA2-256f":
+		return slhdsa.SLH_DSA_SHA2_256f
+	case "SLH-DSA-SHAKE-256f":
+		return slhdsa.SLH_DSA_SHAKE_256f
+	}
+	return nil
+}
